@@ -13,6 +13,9 @@ import sys
 from asyncio import events
 
 
+_exits = 0
+
+
 class Hang(Exception):
     """No ready handle, no open gate, main task not done."""
 
@@ -116,7 +119,9 @@ class World:
         self.agens.append(agen)
 
     def _finalizer(self, agen):
-        # what BaseEventLoop does: schedule aclose
+        # what BaseEventLoop does: schedule aclose (generators finalised after the execution are dropped)
+        if self.loop.is_closed():
+            return
         self.loop.call_soon(self.loop.create_task, agen.aclose())
 
     def __exit__(self, *a):
@@ -140,6 +145,16 @@ class World:
             sys.set_asyncgen_hooks(*self._old_hooks)
             events._set_running_loop(None)
             loop.close()
+            # break reference cycles (loop <-> handler, gates <-> futures) and collect the rest now and then:
+            # garbage that reaches the oldest generation is otherwise only reclaimed very rarely
+            loop.set_exception_handler(None)
+            self.agens.clear()
+            global _exits
+            _exits += 1
+            if _exits % 400 == 0:
+                import gc
+
+                gc.collect()
         return False
 
     def gate(self, label, value=None, error=None, kind="res"):
